@@ -619,6 +619,8 @@ type zDecoder struct {
 	nextX    int
 	// map views are only needed below a level that has a path_nested
 	needVCMap, needVPMap bool
+	level                map[int]int  // how many decodes deep a root map is
+	inCred               map[int]bool // the root map is the map view of a credential
 }
 
 func (d *zDecoder) toMap(v interface{}) int {
@@ -668,7 +670,14 @@ func (d *zDecoder) walk(root int, at []interface{}, v interface{}, depth int) {
 				}
 			}
 			d.entries = append(d.entries, e)
-			if e.Map > 0 && root == 0 && depth <= 1 {
+			// values below a decoded value (path_nested is evaluated on its map view): presentations found near the top of the
+			// envelope, and credentials (a path_nested may hang below an entry that already is a credential); at most 3 maps deep
+			// presentations near the top of the envelope; credentials at a credential position (`verifiableCredential`,
+			// `verifiableCredential[i]`) of the envelope or of such a presentation. Nothing below a credential's map is decoded further.
+			atCredPos := (len(at) >= 1 && at[len(at)-1] == "verifiableCredential") || (len(at) >= 2 && at[len(at)-2] == "verifiableCredential")
+			if e.Map > 0 && !d.inCred[root] && ((e.Kind == "vp" && root == 0 && depth <= 1) || (e.Kind == "vc" && atCredPos && d.level[root] <= 1)) {
+				d.level[e.Map] = d.level[root] + 1
+				d.inCred[e.Map] = e.Kind == "vc"
 				d.walk(e.Map, nil, d.maps[e.Map], 1)
 			}
 		}
@@ -727,7 +736,7 @@ func (r *zRun) opValidate(envRaw string, sub []zMapping, mut string) {
 		return
 	}
 	op.Env = env.asInterface
-	dec := &zDecoder{r: r, maps: []interface{}{nil}, presName: map[string]string{}}
+	dec := &zDecoder{r: r, maps: []interface{}{nil}, presName: map[string]string{}, level: map[int]int{}, inCred: map[int]bool{}}
 	presNames := map[string]string{} // Raw -> name (for the result line)
 	universe := map[string]zCred{}
 	for i, c := range r.creds {
@@ -938,6 +947,24 @@ func zMutations(rng *rand.Rand, sub []zMapping, nCreds int) map[string][]zMappin
 		m = cp()
 		m[i].Id = "d" + strconv.Itoa(1+rng.Intn(4))
 		out["rename-id"] = m
+		// a path_nested hanging below an entry that already lands on the credential (the schema allows it, no wallet emits it):
+		// dangling, to a non-credential object, to a string, to the credential itself
+		for name, np := range map[string]string{"nested-under-credential-dangling": "$.doesNotExist", "nested-under-credential-to-subject": "$.credentialSubject",
+			"nested-under-credential-to-string": "$.issuer", "nested-under-credential-self": "$"} {
+			m = cp()
+			last := &m[i]
+			for last.Nested != nil { // array envelopes: one level deeper than needed
+				n := *last.Nested
+				last.Nested = &n
+				last = last.Nested
+			}
+			f := last.Fmt
+			if rng.Intn(4) == 0 {
+				f = []string{"ldp_vc", "jwt_vc"}[rng.Intn(2)]
+			}
+			last.Nested = &zMapping{Id: last.Id, Fmt: f, Path: np}
+			out[name] = m
+		}
 	}
 	out["empty"] = []zMapping{}
 	return out
@@ -1720,7 +1747,7 @@ func (r *zRun) walletFlow(rng *rand.Rand, w []int, n int) {
 	}
 	sort.Strings(names)
 	rng.Shuffle(len(names), func(i, j int) { names[i], names[j] = names[j], names[i] })
-	for _, k := range names[:min(len(names), 4)] {
+	for _, k := range names[:min(len(names), 6)] {
 		r.opValidate(envRaw, muts[k], k)
 	}
 	// a DIFFERENT credential with the SAME id (a variant / re-issue with other claims) rides along in the presentation:
@@ -1752,6 +1779,14 @@ func (r *zRun) walletFlow(rng *rand.Rand, w []int, n int) {
 		}
 		r.opValidate(arr, nested, "array-nested")
 		r.opValidate(arr, sub, "array-flat")
+		if len(nested) > 0 {
+			am := zMutations(rng, nested, len(sign.VerifiableCredentials))
+			for _, k := range []string{"nested-under-credential-dangling", "nested-under-credential-to-subject", "nested-under-credential-to-string", "nested-under-credential-self"} {
+				if fm, ok := am[k]; ok && rng.Intn(2) == 0 {
+					r.opValidate(arr, fm, "array-"+k)
+				}
+			}
+		}
 	}
 }
 
